@@ -36,7 +36,7 @@ func (*c04World) ID() string   { return "C04" }
 func (*c04World) Name() string { return "c04" }
 func (*c04World) Runs(tier string) int {
 	if tier == "thorough" {
-		return 300000
+		return 1500000
 	}
 	return 30000
 }
